@@ -4,7 +4,7 @@ import json, sys
 pid, n = sys.argv[1], sys.argv[2]
 p = {json.loads(l)['id']: json.loads(l) for l in open('/verif/properties.jsonl')}[pid]
 wt = f"/tmp/seed-{pid.lower()}-{n}"
-print(f"""You are an experienced Rust engineer helping to evaluate a verification effort for the open-source project project-chip/rs-matter (a Rust no_std implementation of the Matter smart-home protocol). You have your own scratch git worktree of the repository at {wt} (the crate is in {wt}/rs-matter). Work ONLY inside {wt}; do not look at or touch /repo, /verif or any other directory under /tmp. There is no network.
+print(f"""You are an experienced Rust engineer helping to evaluate a verification effort for the open-source project project-chip/rs-matter (a Rust no_std implementation of the Matter smart-home protocol). You have your own scratch git worktree of the repository at {wt} (the crate is in {wt}/rs-matter). Work ONLY inside {wt}; do not look at or touch /repo, /verif or any other directory under /tmp. There is no network. DISK SPACE IS SCARCE and shared: run `export CARGO_INCREMENTAL=0 CARGO_PROFILE_DEV_DEBUG=0 CARGO_PROFILE_TEST_DEBUG=0` before every cargo command (debug info is most of a build's size), and when you are completely finished delete your build output with `rm -rf {wt}/target`.
 
 The property under evaluation (it is supposed to hold for the code as it is now):
 
@@ -21,7 +21,7 @@ YOUR TASK: produce ONE realistic change to the rs-matter source (the kind of reg
   (b) the repository's existing test suite still passes: `cd {wt} && cargo test --workspace --no-fail-fast --offline 2>&1 | grep -E "^test result|FAILED|failed" | head -40` (the one test `test_commissioning_onoff_cluster` in tests/commissioning.rs fails already on the unchanged tree in this sandbox: ignore it; everything else must pass), and
   (c) the breakage needs something SPECIFIC to manifest — a particular interleaving or timing, a fault or crash at a particular point, a multi-step sequence of operations, an unusual-but-legal input, a boundary value, or two cooperating sites that each look fine alone — i.e. NOT something that ordinary use or the existing tests would expose at once. Prefer a change of a few lines in one or two places, located in the code the anchors point at. Do not touch test files, Cargo manifests, build scripts or code guarded by `cfg(feature = "verif")` / `cfg(test)`.
 
-Then write a DEMONSTRATION that the change really breaks the property: a new test file {wt}/rs-matter/tests/seeded_{pid.lower()}.rs (an integration test using only the public API; gate it with `#![cfg(feature = "std")]` and whatever features it needs), or, if the public API cannot reach it, a `#[cfg(test)] mod seeded_{pid.lower()}` unit-test module appended to the relevant source file, that FAILS with your change and PASSES without it. Keep it deterministic (no wall-clock sleeps beyond what the existing tests do, no random seeds). Verify both directions yourself: run the demonstration with the change (must fail), then `git stash` ONLY the source change (keep the demonstration), run it again (must pass), then restore the change.
+Then write a DEMONSTRATION that the change really breaks the property: a new test file {wt}/rs-matter/tests/seeded_{pid.lower()}.rs (an integration test using only the public API; gate it with `#![cfg(feature = "std")]` and whatever features it needs), or, if the public API cannot reach it, a `#[cfg(test)] mod seeded_{pid.lower()}` unit-test module appended to the relevant source file, that FAILS with your change and PASSES without it. Keep it deterministic (no wall-clock sleeps beyond what the existing tests do, no random seeds). Verify both directions yourself: run the demonstration with the change (must fail), then revert ONLY the source change (keep the demonstration) with `git diff -- <changed source files> > /tmp/<your-worktree-name>.patch && git apply -R /tmp/<your-worktree-name>.patch`, run it again (must pass), then restore the change with `git apply`. Do NOT use `git stash`: the stash is shared between all worktrees of this repository and other engineers are working in sibling worktrees.
 
 Deliverables, all inside {wt}:
   - {wt}/SEEDED/patch.diff   — `git diff` of the source change ONLY (no demonstration in it); it must apply to the unchanged tree with `git apply`.
